@@ -189,6 +189,7 @@ func (d *Dir) Check() error {
 
 		if !valid {
 			wl.Printf("ignoring file for invalid username: '%s'", user)
+			continue
 		}
 
 		if isAdmin {
